@@ -28,12 +28,10 @@ pub fn policy(v: &Value) -> Value {
     json!({"mode": mode.as_str()})
 }
 
-/// K1: the real post_commit on a scratch repository whose working log holds an agent checkpoint with a
-/// transcript. Configuration (HOME/.git-ai/config.json), GIT_AI_API_BASE_URL and the database path are set by
-/// the caller. {prompts: n}
-pub fn post_commit(v: &Value) -> Value {
-    let dir = std::env::temp_dir().join(format!("vreplay-c08p-{}", std::process::id()));
-    let _ = std::fs::remove_dir_all(&dir);
+/// K1, step 1: {dir, prompts}: a repository with a base commit, `prompts` agent checkpoints carrying a
+/// transcript, and the commit that takes their files (made by plain git). -> {parent, commit}
+pub fn prepare(v: &Value) -> Value {
+    let dir = std::path::PathBuf::from(v["dir"].as_str().unwrap());
     std::fs::create_dir_all(&dir).unwrap();
     let git = |args: &[&str]| {
         let o = std::process::Command::new("git")
@@ -74,17 +72,16 @@ pub fn post_commit(v: &Value) -> Value {
     git(&["add", "-A"]);
     git(&["commit", "-q", "-m", "next"]);
     let commit = git(&["rev-parse", "HEAD"]);
-    if let Some(p) = v["break_db_after_checkpoint"].as_str() {
-        // SAFETY: single-threaded replay binary
-        unsafe {
-            std::env::set_var("GIT_AI_TEST_DB_PATH", p);
-            std::env::set_var("GITAI_TEST_DB_PATH", p);
-        }
-    }
-    let repo = git_ai::git::find_repository_in_path(dir.to_str().unwrap()).expect("repo");
-    let r = git_ai::authorship::post_commit::post_commit(&repo, Some(parent), commit.clone(), "v".to_string(), true);
-    let note = std::process::Command::new("git").args(["notes", "--ref=ai", "show", &commit]).current_dir(&dir).output().unwrap();
+    json!({"parent": parent, "commit": commit})
+}
+
+/// K1, step 2 (its own process, so that the environment of the upload queue applies): {dir, parent, commit}
+pub fn post_commit(v: &Value) -> Value {
+    let dir = v["dir"].as_str().unwrap();
+    let commit = v["commit"].as_str().unwrap().to_string();
+    let repo = git_ai::git::find_repository_in_path(dir).expect("repo");
+    let r = git_ai::authorship::post_commit::post_commit(&repo, Some(v["parent"].as_str().unwrap().to_string()), commit.clone(), "v".to_string(), true);
+    let note = std::process::Command::new("git").args(["notes", "--ref=ai", "show", &commit]).current_dir(dir).output().unwrap();
     let text = String::from_utf8_lossy(&note.stdout).to_string();
-    let _ = std::fs::remove_dir_all(&dir);
     json!({"ok": r.is_ok(), "error": r.err().map(|e| e.to_string()), "note_has_conversation": text.contains("secret-conversation"), "note_len": text.len()})
 }
